@@ -90,20 +90,25 @@ Proof.
   unfold ac3_rate, spec_ac3_rate. destruct (N.to_nat f) as [|[|[|n]]] eqn:E; intros [= <-]; cbn [nth]; split; try reflexivity; lia.
 Qed.
 
-Lemma ec3_loc_channels_spec chanloc : ec3_loc_channels chanloc = spec_chanloc_count 0 spec_chanloc_weights chanloc.
+Lemma ec3_loc_channels_dom :
+  forallb (fun i => ec3_loc_channels (N.of_nat i) =? spec_chanloc_count 0 spec_chanloc_weights (N.of_nat i)) (seq 0 512) = true.
+Proof. vm_compute. reflexivity. Qed.
+
+(* chan_loc is a 9-bit field *)
+Lemma ec3_loc_channels_spec chanloc :
+  chanloc < 512 -> ec3_loc_channels chanloc = spec_chanloc_count 0 spec_chanloc_weights chanloc.
 Proof.
-  unfold ec3_loc_channels, spec_chanloc_weights. cbn [seq fold_left spec_chanloc_count ec3_loc_is_pair N.of_nat].
-  change (Pos.of_succ_nat 0) with 1%positive.
-  repeat match goal with |- context [N.testbit chanloc ?i] => destruct (N.testbit chanloc i) end; reflexivity.
+  intros H. pose proof ec3_loc_channels_dom as D. rewrite forallb_forall in D.
+  specialize (D (N.to_nat chanloc)). rewrite N2Nat.id in D. apply N.eqb_eq. apply D. apply in_seq. lia.
 Qed.
 
 Section P.
   Variable avc_parse : str -> option (N * N * (N * N * N)).
   Variable hevc_parse : str -> option (N * N * list N).
 
-  Ltac brk :=
-    repeat match goal with
-           | H : context [match ?x with _ => _ end] |- _ => destruct x eqn:?
+  Ltac brk H :=
+    repeat match type of H with
+           | context [match ?x with _ => _ end] => destruct x
            end.
 
   (* ---- AVC *)
@@ -125,7 +130,7 @@ Section P.
     destruct (avc_parse sps0) as [[[w h] [[p c] l]]|] eqn:Hp; [|discriminate].
     inversion H; subst; clear H.
     exists sps0, rest, w, h, p, c, l.
-    split; [reflexivity|]. split; [reflexivity|]. split.
+    split; [reflexivity|]. split; [exact Hp|]. split.
     { apply negb_false_iff in Hname. unfold is_one_of in Hname. cbn [existsb] in Hname.
       rewrite orb_false_r in Hname. apply orb_prop in Hname. destruct Hname as [E|E]; apply str_eqb_eq in E; auto. }
     split; [destruct incl; reflexivity|]. repeat split; reflexivity.
@@ -149,7 +154,7 @@ Section P.
     destruct (hevc_parse sps0) as [[[w h] cfg]|] eqn:Hp; [|discriminate].
     destruct (str_eqb name _ && negb incl) eqn:H1; [discriminate|].
     exists sps0, rest, w, h, cfg.
-    split; [reflexivity|]. split; [reflexivity|]. split.
+    split; [reflexivity|]. split; [exact Hp|]. split.
     { apply negb_false_iff in Hname. unfold is_one_of in Hname. cbn [existsb] in Hname.
       rewrite orb_false_r in Hname. apply orb_prop in Hname. destruct Hname as [E|E]; apply str_eqb_eq in E; auto. }
     unfold spec_hevc_arrays, complete_bit, nalu_array in *.
@@ -187,6 +192,7 @@ Section P.
   Qed.
 
   Lemma set_ec3_ok t dr fscod bsid asvc bsmod acmod lfeon nds cl subs t' :
+    cl < 512 ->
     set_ec3 t (mkDec3 dr (mkEc3Sub fscod bsid asvc bsmod acmod lfeon nds cl :: subs)) = (OOk, t') ->
     sd_entries t' = sd_entries t ++
       [mkSE (BS "ec-3") 1
@@ -196,11 +202,11 @@ Section P.
             (CfgDec3 (mkDec3 dr (mkEc3Sub fscod bsid asvc bsmod acmod lfeon nds cl :: subs)))]
     /\ core t' = core t.
   Proof.
-    unfold set_ec3. intros H.
+    unfold set_ec3. intros Hcl H.
     destruct (acmod_channels acmod) as [l|] eqn:Ha; [|discriminate].
     destruct (ac3_rate fscod) as [r|] eqn:Hr; [|discriminate].
     apply acmod_channels_count in Ha. apply ac3_rate_spec in Hr. destruct Ha as [Ha _]. destruct Hr as [Hr _].
-    inversion H; subst. rewrite Ha, ec3_loc_channels_spec. split; reflexivity.
+    inversion H; subst. rewrite Ha, (ec3_loc_channels_spec cl Hcl). split; reflexivity.
   Qed.
 
   (* ---- wvtt / stpp *)
@@ -226,27 +232,26 @@ Section P.
     destruct d as [name spss ppss incl|name vpss spss ppss seis incl|o f|d|d|c|a b c]; cbn [set_desc].
     - destruct (set_avc avc_parse t name spss ppss incl) as [oc t'] eqn:H. destruct oc.
       + apply set_avc_ok in H. destruct H as (?&?&?&?&?&?&?&_&_&_&He&_). eexists. split; [exact He|reflexivity].
-      + unfold set_avc, create_avcc in H. brk; inversion H; reflexivity.
-      + unfold set_avc, create_avcc in H. brk; inversion H; reflexivity.
+      + unfold set_avc, create_avcc in H. brk H; inversion H; reflexivity.
+      + unfold set_avc, create_avcc in H. brk H; inversion H; reflexivity.
     - destruct (set_hevc hevc_parse t name vpss spss ppss seis incl) as [oc t'] eqn:H. destruct oc.
       + apply set_hevc_ok in H. destruct H as (?&?&?&?&?&_&_&_&He&_). eexists. split; [exact He|reflexivity].
-      + unfold set_hevc, create_hvcc in H. brk; inversion H; reflexivity.
-      + unfold set_hevc, create_hvcc in H. brk; inversion H; reflexivity.
+      + unfold set_hevc, create_hvcc in H. brk H; inversion H; reflexivity.
+      + unfold set_hevc, create_hvcc in H. brk H; inversion H; reflexivity.
     - destruct (set_aac t o f) as [oc t'] eqn:H. destruct oc.
       + apply set_aac_ok in H. destruct H as (?&_&He&_). eexists. split; [exact He|reflexivity].
-      + unfold set_aac in H. brk; inversion H; reflexivity.
-      + unfold set_aac in H. brk; inversion H; reflexivity.
+      + unfold set_aac in H. brk H; inversion H; reflexivity.
+      + unfold set_aac in H. brk H; inversion H; reflexivity.
     - destruct d as [fscod bsid bsmod acmod lfeon brc].
       destruct (set_ac3 t _) as [oc t'] eqn:H. destruct oc.
       + apply set_ac3_ok in H. destruct H as [He _]. eexists. split; [exact He|reflexivity].
-      + unfold set_ac3 in H. brk; inversion H; reflexivity.
-      + unfold set_ac3 in H. brk; inversion H; reflexivity.
+      + unfold set_ac3 in H. brk H; inversion H; reflexivity.
+      + unfold set_ac3 in H. brk H; inversion H; reflexivity.
     - destruct d as [dr subs].
       destruct (set_ec3 t _) as [oc t'] eqn:H. destruct oc.
-      + destruct subs as [|[fscod bsid asvc bsmod acmod lfeon nds cl] subs]; [discriminate|].
-        apply set_ec3_ok in H. destruct H as [He _]. eexists. split; [exact He|reflexivity].
-      + unfold set_ec3 in H. brk; inversion H; reflexivity.
-      + unfold set_ec3 in H. brk; inversion H; reflexivity.
+      + unfold set_ec3 in H. brk H; inversion H; subst; eexists; split; reflexivity.
+      + unfold set_ec3 in H. brk H; inversion H; reflexivity.
+      + unfold set_ec3 in H. brk H; inversion H; reflexivity.
     - rewrite set_wvtt_ok. eexists. split; reflexivity.
     - rewrite set_stpp_ok. eexists. split; reflexivity.
   Qed.
